@@ -36,6 +36,7 @@ type Run struct {
 	Dup               bool // same text as an earlier accepted run of this plugin
 	NArgs             int
 	Arities           []int
+	DepAccepts        bool // Add rejected the types because of their shape, Generate (probed with the same types) accepts them
 }
 
 // decision lookup helpers
@@ -260,6 +261,33 @@ func (s *Sweeper) one(plugin string, newFn *VFunc, cfg sweepConfig, or *Oracle) 
 	if _, isErr := at.Vals[1].(VErr); isErr {
 		finish()
 		run.Outcome = "rejected"
+		// Other plugins request functions through GetFuncName, which never passes Add: what Add turns down because of the
+		// shape of a type, Generate must turn down as well. Probe Generate with the very types Add rejected.
+		shape := false
+		for _, d := range in.decisions {
+			if d.Sym == "ARGS" {
+				continue
+			}
+			if strings.Contains(d.Sym, "types.Identical(") || strings.Contains(d.Sym, "AssignableTo(") || strings.Contains(d.Sym, "eq(") {
+				shape = false // a relation between the arguments of one call: requests through GetFuncName are made per type
+				break
+			}
+			shape = true
+		}
+		if shape {
+			func() {
+				saved := in.or
+				in.or = &Oracle{} // the probe follows the first outcome of every new decision and adds nothing to the exploration
+				defer func() { in.or = saved; recover() }()
+				in.lines = nil
+				in.indent = 0
+				res := in.callFunc(gen, []Value{typs}, token.NoPos)
+				if _, isErr := res.(VErr); !isErr && len(in.lines) > 0 && in.infeasiblePreds() == "" {
+					run.DepAccepts = true
+					run.Decisions = in.decisions
+				}
+			}()
+		}
 		return
 	}
 	if in.registered == nil {
